@@ -137,6 +137,10 @@ class ScriptedBackend(TrialBackend):
 
     def _pause_trial(self, trial_id, result):
         self._kill(trial_id, "pause")
+        # modelling decision: the job is resumed from the checkpoint of the level it was paused at (output and
+        # checkpoints the job produced after that level, while running ahead of the tuner, are discarded)
+        if result is not None and trial_id in self.ckpt and self.spec.resource_attr in result:
+            self.ckpt[trial_id] = min(self.ckpt[trial_id], int(result[self.spec.resource_attr]))
         self.shown[trial_id] = Status.paused
 
     def _stop_trial(self, trial_id, result):
